@@ -88,7 +88,10 @@ OPS = ["read", "kid_value", "append", "insert_dup", "del", "slice_dup", "remove_
        "shared_value", "config=", "config_value", "del_kids", "del_child", "del_parts", "del_config"]
 
 
-def harness_factory(variant, k, first=None):
+CORE_OPS = ["kid_value", "append", "insert_dup", "del", "slice_dup", "pop", "assign_dup_list", "part_same", "part_value", "del_kids"]
+
+
+def harness_factory(variant, k, first=None, ops=None):
     """first: the first operation, fixed per obligation instance only to spread the work over the process pool"""
     def harness(ex):
         errors = []
@@ -114,7 +117,8 @@ def harness_factory(variant, k, first=None):
             h.on_trait_change(lambda name, new: notes.append((name, new)), pname)
         trace = []
         for step in range(k):
-            op = first if (step == 0 and first is not None) else OPS[ex.choice("op%d" % step, len(OPS))]
+            pool_ = ops or OPS
+            op = first if (step == 0 and first is not None) else pool_[ex.choice("op%d" % step, len(pool_))]
             before = recompute(h)
             notes.clear()
             n = len(h.kids)
@@ -208,10 +212,15 @@ def harness_factory(variant, k, first=None):
 def obligations(tier, build):
     obs = []
     K = 2 if tier == "quick" else 3
-    for variant in ("original", "unpickled", "clone"):
-      for first in OPS:
-        obs.append(Obligation("stale/%s/k=%d/first=%s" % (variant, K, first), harness_factory(variant, K, first), env=G.env, stubs=STUBS,
-                              bounds={"history length": K, "operations": OPS, "object": variant, "first operation": first,
+    # quick: every operation, k=2, three object variants.  thorough: the same, plus k=3 over the 10 container-related operations on
+    # the original object (26**3 histories x the index forks x 3 variants did not finish within the hour; 14 operations x 3
+    # variants took 36 minutes)
+    plans = [(2, OPS, ("original", "unpickled", "clone"))] + ([(3, CORE_OPS, ("original",))] if tier != "quick" else [])
+    for K, pool_, variants in plans:
+     for variant in variants:
+      for first in pool_:
+        obs.append(Obligation("stale/%s/k=%d/first=%s" % (variant, K, first), harness_factory(variant, K, first, pool_), env=G.env, stubs=STUBS,
+                              bounds={"history length": K, "operations": pool_, "object": variant, "first operation": first,
                                       "list positions": "unbounded Int"},
                               leverage="list indices; otherwise choice feasibility only", max_paths=100000, path_wall_s=60))
     return obs
